@@ -119,6 +119,52 @@ def run(args):
                     R.spec_fail(dict(kind="returned-state-differs"), f"checkpoint_lengths={ls}: returned state differs in {key}", dict(layout=ls, **inp), err)
         if len(R.samples) < 2:
             R.samples.append(inp)
+    # ---- inputs attached to the MODULE (stimulate / clamp of a voltage and of a synaptic state, two synapse types interleaved):
+    #      one call == manual stepping with the step function's own (default) input indices == a split run
+    for t in range(nm):
+        net, desc = random_network(rng, syn_types=["IonotropicSynapse", "TestSynapse"], nsyn=int(rng.integers(3, 7)))
+        backend = BACKENDS[(args.shard + t) % 3]
+        n = int(rng.integers(5, 10)); n1 = int(rng.integers(1, n))
+        nn = net.nodes.shape[0]
+        net.delete_recordings()
+        net.select(nodes=list(range(nn))).record("v", verbose=False)
+        typ = str(net.edges["type"].iloc[int(rng.integers(0, len(net.edges)))])
+        skey = {"IonotropicSynapse": "IonotropicSynapse_s", "TestSynapse": "TestSynapse_c"}[typ]
+        es = [int(x) for x in net.edges.index[net.edges["type"] == typ]]
+        net.select(edges=es).record(skey, verbose=False)
+        e = int(rng.choice(es)); srow = int(rng.integers(0, nn)); crow = int(rng.integers(0, nn))
+        sig = stim_signal(rng, n) + 0.03; cs = rng.uniform(0.1, 0.9, n); cv = rng.uniform(-75, -55, n)
+        net.select(nodes=[srow]).stimulate(jnp.asarray(sig), verbose=False)
+        net.select(edges=[e]).clamp(skey, jnp.asarray(cs), verbose=False)
+        if crow != srow:
+            net.select(nodes=[crow]).clamp("v", jnp.asarray(cv), verbose=False)
+        inp = dict(module=desc, backend=backend, steps=n, split=[n1, n - n1], stimulus_row=srow, clamped_edge=e, edges_of_type=es, state=skey)
+        try:
+            full = np.asarray(jx.integrate(net, voltage_solver=backend, delta_t=0.025))
+        except AssertionError:
+            R.count("refused"); continue
+        R.evaluations += 1
+        R.count("module-inputs:" + ("edge-index!=rank" if es.index(e) != e else "edge-index==rank"))
+        row_e = nn + es.index(e)
+        if not np.array_equal(full[row_e, 1:], cs):
+            R.spec_fail(dict(kind="module-clamp-not-held"), f"clamp of {skey} on edge {e} (edges of that type: {es}) is not held in the one-call run", inp, None)
+        net.to_jax()
+        init_fn, step_fn = build_init_and_step_fn(net, voltage_solver=backend)
+        st, params = init_fn([], None, None, 0.025)
+        rec_inds = net.recordings.rec_index.to_numpy(); rec_states = net.recordings.state.to_numpy()
+        within = net.edges.groupby("type").cumcount().to_numpy()
+        pos = [int(within[i]) if s_ == skey else int(i) for s_, i in zip(rec_states, rec_inds)]
+        manual = [[float(st[s_][i]) for s_, i in zip(rec_states, pos)]]
+        ext = {k: np.asarray(v) for k, v in net.externals.items()}
+        jstep = jax.jit(lambda s_, x: step_fn(s_, params, x, delta_t=0.025))          # default external_inds
+        for k in range(n):
+            st = jstep(st, {kk: jnp.asarray(v[:, k]) for kk, v in ext.items()})
+            manual.append([float(st[s_][i]) for s_, i in zip(rec_states, pos)])
+        manual = np.asarray(manual).T
+        if manual.shape != full.shape or not np.allclose(manual, full, rtol=1e-8, atol=1e-8):
+            bad = sorted(set(np.where(~np.isclose(manual, full, rtol=1e-8, atol=1e-8))[0].tolist())) if manual.shape == full.shape else "shape"
+            R.spec_fail(dict(kind="manual-stepping-differs", inputs="module"), f"{backend}: stepping with step_fn and the module's own inputs differs from integrate in recording rows {bad}", inp, None)
+        net.delete_stimuli(); net.delete_clamps()
     # ---- F6 witness (deterministic): 10-sample stimulus, checkpoint_lengths [4,4]
     if args.shard == 0:
         cell, d = random_cell(np.random.default_rng(1), channels=["HH"])
